@@ -38,6 +38,12 @@ theorem error_ok_of_not_strict (c : Cfg σ) (h : c.mode ≠ .strict) (log : Log)
 theorem error_ok_not_strict (c : Cfg σ) {log log' : Log} {e : Err} (h : c.error log e = .ok log') : c.mode ≠ .strict := by
   intro hm; rw [error_strict c hm] at h; cases h
 
+theorem error_error (c : Cfg σ) {log : Log} {e e' : Err} (h : c.error log e = .error e') : c.mode = .strict ∧ e' = e := by
+  unfold Cfg.error at h
+  split at h
+  · simp at h; exact ⟨by assumption, h.symm⟩
+  · split at h <;> simp at h
+
 /-! ### Pass 1: outside strict mode nothing raises -/
 
 theorem getNode_ok (c : Cfg σ) (h : c.mode ≠ .strict) (k : TagKind) (ts : List (Tok σ)) (r : R (Node σ)) :
@@ -384,5 +390,251 @@ theorem parseTemplate_agree (c : Cfg σ) (m : Mode) (ts : List (Tok σ)) (log : 
   split at h
   · rename_i heq; rw [hl _ heq]; exact h
   · simp at h
+
+/-! ## Rendering -/
+
+/-- induction over the nested `Node` / `List Node` structure -/
+theorem node_ind {P : Node σ → Prop} {Q : List (Node σ) → Prop}
+    (text : ∀ s, P (.text s)) (eval : ∀ e, P (.eval e)) (illegal : P .illegal) (interrupt : ∀ b, P (.interrupt b))
+    (partial_ : ∀ iso e, P (.partial_ iso e)) (extends_ : ∀ e, P (.extends_ e))
+    (cond : ∀ neg c cons alts dflt, Q cons → Q alts → Q dflt → P (.cond neg c cons alts dflt))
+    (condBlock : ∀ e body, Q body → P (.condBlock e body))
+    (loop : ∀ e body dflt, Q body → Q dflt → P (.loop e body dflt))
+    (capture : ∀ e body, Q body → P (.capture e body))
+    (nil : Q []) (cons : ∀ n ns, P n → Q ns → Q (n :: ns)) : (∀ n, P n) ∧ (∀ ns, Q ns) :=
+  ⟨fun n => Node.rec (motive_1 := P) (motive_2 := Q) text eval illegal interrupt partial_ extends_ cond condBlock loop capture nil cons n,
+   fun ns => Node.rec_1 (motive_1 := P) (motive_2 := Q) text eval illegal interrupt partial_ extends_ cond condBlock loop capture nil cons ns⟩
+
+/-! ### Pass 1: the top-level template loop never lets anything escape outside strict mode -/
+
+theorem templateLoop_top (c : Cfg σ) (rn : Node σ → RS σ → RS σ × Sig) (bs : Bool) :
+    ∀ (ns : List (Node σ)) (rs : RS σ),
+      (templateLoop c rn false bs ns rs).2 = .done ∨ (c.mode = .strict ∧ ∃ e, (templateLoop c rn false bs ns rs).2 = .err e) := by
+  intro ns
+  induction ns with
+  | nil => intro rs; simp [templateLoop]
+  | cons n ns ih =>
+    intro rs
+    simp only [templateLoop]
+    have he := fun log e e' => error_error c (log := log) (e := e) (e' := e')
+    repeat' split
+    all_goals grind
+
+theorem render_sig (c : Cfg σ) (nodes : List (Node σ)) (st : σ) (log : Log) :
+    (render c nodes st log).2 = .done ∨ (c.mode = .strict ∧ ∃ e, (render c nodes st log).2 = .err e) := by
+  unfold render
+  simp only [renderTemplate]
+  exact templateLoop_top c _ false nodes _
+
+/-! ### Pass 2: stable log predicates are preserved by rendering -/
+
+def RTInv (P : Log → Prop) (rt : RenderTemplateFn σ) : Prop := ∀ ns p b rs, P rs.log → P (rt ns p b rs).1.log
+
+theorem evalExpr_log (e : Expr σ) (rs : RS σ) : (evalExpr e rs).1.log = rs.log := rfl
+
+theorem iterate_inv {P : Log → Prop} (body : RS σ → RS σ × Sig) (hb : ∀ rs, P rs.log → P (body rs).1.log) :
+    ∀ n rs, P rs.log → P (iterate body n rs).1.log := by
+  intro n
+  induction n with
+  | zero => intro rs h; simpa [iterate] using h
+  | succ n ih =>
+    intro rs h
+    simp only [iterate]
+    repeat' split
+    all_goals grind
+
+theorem renderNode_inv (c : Cfg σ) {P} (hP : Stable c P) {rt : RenderTemplateFn σ} (hrt : RTInv P rt) :
+    (∀ n : Node σ, ∀ rs, P rs.log → P (renderNode c rt n rs).1.log) ∧
+    (∀ ns : List (Node σ), (∀ rs, P rs.log → P (renderList c rt ns rs).1.log) ∧ (∀ rs, P rs.log → P (renderAlts c rt ns rs).1.log)) := by
+  have hpt := fun ts log r => parseTemplate_inv c hP ts log r
+  have hev := @evalExpr_log σ
+  unfold RTInv at hrt
+  apply node_ind
+  case text => intro s rs h; simpa [renderNode] using h
+  case eval =>
+    intro e rs h; simp only [renderNode]
+    split <;> grind
+  case illegal => intro rs h; simpa [renderNode] using h
+  case interrupt => intro b rs h; simpa [renderNode] using h
+  case partial_ =>
+    intro iso e rs h; simp only [renderNode]
+    repeat' split
+    all_goals grind
+  case extends_ =>
+    intro e rs h; simp only [renderNode]
+    repeat' split
+    all_goals grind
+  case cond =>
+    intro neg cnd cons alts dflt h1 h2 h3 rs h; simp only [renderNode]
+    repeat' split
+    all_goals grind
+  case condBlock =>
+    intro e body h1 rs h; simp only [renderNode]
+    repeat' split
+    all_goals grind
+  case loop =>
+    intro e body dflt h1 h2 rs h; simp only [renderNode]
+    have hit := iterate_inv (P := P) (renderList c rt body) h1.1
+    repeat' split
+    all_goals grind
+  case capture =>
+    intro e body h1 rs h; simp only [renderNode]
+    have := h1.1 { rs with out := "" } h
+    repeat' split
+    all_goals grind
+  case nil => exact ⟨fun rs h => by simpa [renderList] using h, fun rs h => by simpa [renderAlts] using h⟩
+  case cons =>
+    intro n ns hn hns
+    refine ⟨?_, ?_⟩
+    · intro rs h; simp only [renderList]
+      repeat' split
+      all_goals grind
+    · intro rs h
+      cases n <;> simp only [renderAlts] <;> (try exact hns.2 rs h)
+      rename_i e body
+      have hb := hn
+      simp only [renderNode] at hb
+      repeat' split
+      all_goals grind
+
+theorem templateLoop_inv (c : Cfg σ) {P} (hP : Stable c P) {rn : Node σ → RS σ → RS σ × Sig}
+    (hrn : ∀ n rs, P rs.log → P (rn n rs).1.log) (p b : Bool) :
+    ∀ (ns : List (Node σ)) rs, P rs.log → P (templateLoop c rn p b ns rs).1.log := by
+  intro ns
+  induction ns with
+  | nil => intro rs h; simpa [templateLoop] using h
+  | cons n ns ih =>
+    intro rs h
+    simp only [templateLoop]
+    unfold Stable at hP
+    repeat' split
+    all_goals grind
+
+theorem renderTemplate_inv (c : Cfg σ) {P} (hP : Stable c P) : ∀ d, RTInv P (renderTemplate c d : RenderTemplateFn σ) := by
+  intro d
+  induction d with
+  | zero => intro ns p b rs h; simpa [renderTemplate] using h
+  | succ d ih =>
+    intro ns p b rs h
+    simp only [renderTemplate]
+    exact templateLoop_inv c hP (renderNode_inv c hP ih).1 p b ns rs h
+
+theorem render_inv (c : Cfg σ) {P} (hP : Stable c P) (nodes : List (Node σ)) (st : σ) (log : Log) (h : P log) :
+    P (render c nodes st log).1.log :=
+  renderTemplate_inv c hP _ nodes false false ⟨st, "", log⟩ h
+
+/-! ### Pass 3: a strict-mode render that raises nothing is reproduced verbatim in every mode -/
+
+def RTAgree (rtS rtM : RenderTemplateFn σ) : Prop := ∀ ns p b rs, (rtS ns p b rs).2.isErr = false → rtM ns p b rs = rtS ns p b rs
+
+theorem iterate_agree (fS fM : RS σ → RS σ × Sig) (hf : ∀ rs, (fS rs).2.isErr = false → fM rs = fS rs) :
+    ∀ n rs, (iterate fS n rs).2.isErr = false → iterate fM n rs = iterate fS n rs := by
+  intro n
+  induction n with
+  | zero => intro rs _; simp [iterate]
+  | succ n ih =>
+    intro rs h
+    simp only [iterate] at h ⊢
+    cases hs : fS rs with
+    | mk rs' s =>
+      rw [hs] at h
+      have : (fS rs).2.isErr = false := by
+        cases s <;> simp_all [Sig.isErr]
+      rw [hf rs this, hs]
+      cases s <;> simp_all [Sig.isErr]
+
+theorem renderNode_agree (c : Cfg σ) (m : Mode) {rtS rtM : RenderTemplateFn σ} (hrt : RTAgree rtS rtM) :
+    (∀ n : Node σ, ∀ rs, (renderNode (c.withMode .strict) rtS n rs).2.isErr = false →
+        renderNode (c.withMode m) rtM n rs = renderNode (c.withMode .strict) rtS n rs) ∧
+    (∀ ns : List (Node σ),
+      (∀ rs, (renderList (c.withMode .strict) rtS ns rs).2.isErr = false →
+        renderList (c.withMode m) rtM ns rs = renderList (c.withMode .strict) rtS ns rs) ∧
+      (∀ rs, (∀ s, (renderAlts (c.withMode .strict) rtS ns rs).2 = some s → s.isErr = false) →
+        renderAlts (c.withMode m) rtM ns rs = renderAlts (c.withMode .strict) rtS ns rs)) := by
+  have hpt := fun ts log r => parseTemplate_agree c m ts log r
+  unfold RTAgree at hrt
+  apply node_ind
+  case text => intro s rs _; simp [renderNode]
+  case eval => intro e rs _; simp [renderNode]
+  case illegal => intro rs _; simp [renderNode]
+  case interrupt => intro b rs _; simp [renderNode]
+  case partial_ =>
+    intro iso e rs h; simp only [renderNode, withMode_loader] at h ⊢
+    repeat' split at h
+    all_goals grind [Sig.isErr]
+  case extends_ =>
+    intro e rs h; simp only [renderNode, withMode_loader] at h ⊢
+    repeat' split at h
+    all_goals grind [Sig.isErr]
+  case cond =>
+    intro neg cnd cons alts dflt h1 h2 h3 rs h; simp only [renderNode] at h ⊢
+    repeat' split at h
+    all_goals grind [Sig.isErr]
+  case condBlock =>
+    intro e body h1 rs h; simp only [renderNode] at h ⊢
+    repeat' split at h
+    all_goals grind [Sig.isErr]
+  case loop =>
+    intro e body dflt h1 h2 rs h; simp only [renderNode] at h ⊢
+    have hit := iterate_agree (renderList (c.withMode .strict) rtS body) (renderList (c.withMode m) rtM body) h1.1
+    repeat' split at h
+    all_goals grind [Sig.isErr]
+  case capture =>
+    intro e body h1 rs h; simp only [renderNode] at h ⊢
+    have := h1.1 { rs with out := "" }
+    repeat' split at h
+    all_goals grind [Sig.isErr]
+  case nil => exact ⟨fun rs _ => by simp [renderList], fun rs _ => by simp [renderAlts]⟩
+  case cons =>
+    intro n ns hn hns
+    refine ⟨?_, ?_⟩
+    · intro rs h; simp only [renderList] at h ⊢
+      repeat' split at h
+      all_goals grind [Sig.isErr]
+    · intro rs h
+      cases n <;> simp only [renderAlts] at h ⊢ <;> (try exact hns.2 rs h)
+      rename_i e body
+      have hb := hns.1
+      have ha := hns.2
+      have hn' := hn
+      simp only [renderNode] at hn'
+      repeat' split at h
+      all_goals grind [Sig.isErr]
+
+theorem templateLoop_agree (c : Cfg σ) (m : Mode) {rnS rnM : Node σ → RS σ → RS σ × Sig}
+    (hrn : ∀ n rs, (rnS n rs).2.isErr = false → rnM n rs = rnS n rs) (p b : Bool) :
+    ∀ (ns : List (Node σ)) rs, (templateLoop (c.withMode .strict) rnS p b ns rs).2.isErr = false →
+      templateLoop (c.withMode m) rnM p b ns rs = templateLoop (c.withMode .strict) rnS p b ns rs := by
+  intro ns
+  induction ns with
+  | nil => intro rs _; simp [templateLoop]
+  | cons n ns ih =>
+    intro rs h
+    have hs := error_strict (c.withMode .strict) rfl
+    simp only [templateLoop] at h ⊢
+    cases hx : rnS n rs with
+    | mk rs' s =>
+      rw [hx] at h
+      have h1 : (rnS n rs).2.isErr = false := by
+        rw [hx]; cases s <;> simp_all [Sig.isErr]
+      rw [hrn n rs h1, hx]
+      cases s <;> simp_all [Sig.isErr]
+      all_goals (split <;> simp_all)
+
+theorem renderTemplate_agree (c : Cfg σ) (m : Mode) :
+    ∀ d, RTAgree (renderTemplate (c.withMode .strict) d) (renderTemplate (c.withMode m) d : RenderTemplateFn σ) := by
+  intro d
+  induction d with
+  | zero => intro ns p b rs h; simp [renderTemplate, Sig.isErr] at h
+  | succ d ih =>
+    intro ns p b rs h
+    simp only [renderTemplate] at h ⊢
+    exact templateLoop_agree c m (renderNode_agree c m ih).1 p b ns rs h
+
+theorem render_agree (c : Cfg σ) (m : Mode) (nodes : List (Node σ)) (st : σ) (log : Log)
+    (h : (render (c.withMode .strict) nodes st log).2.isErr = false) :
+    render (c.withMode m) nodes st log = render (c.withMode .strict) nodes st log := by
+  unfold render at h ⊢
+  exact renderTemplate_agree c m _ nodes false false _ h
 
 end LiquidVerif.Mode
